@@ -1,11 +1,13 @@
 import IcyVerif.Drv.Uni
 import IcyVerif.Drv.Font
+import IcyVerif.Drv.UniMacro
 open IcyVerif.Drv
 
 def dispatch (line : String) : String :=
   match line.trimAscii.toString.splitOn " " with
   | "uni" :: rest => Uni.handle rest
   | "font" :: rest => Font.handle rest
+  | "unimacro" :: rest => UniMacro.handle rest
   | _ => "bad-op"
 
 partial def loop (h : IO.FS.Stream) (out : IO.FS.Stream) : IO Unit := do
